@@ -2548,7 +2548,8 @@ class Convex:
             raise ValueError('Convex functions do not support the sum() method.')
 
         return Convex(self.affine_in, self.affine_out.sum(axis=axis),
-                      self.xtype, self.sign, self.multiplier, axis, params=self.params)
+                      self.xtype, self.sign, self.multiplier, axis,
+                      params=('sum', axis))
 
     def __call__(self):
 
@@ -2582,9 +2583,15 @@ class Convex:
             elif self.xtype == 'Q':
                 output = self.multiplier**2*self.sign*(value_in**2).sum() + value_out
             elif self.xtype == 'X':
-                output = self.multiplier*self.sign*np.exp(value_in) + value_out
+                value = np.exp(value_in)
+                if self.params is not None:
+                    value = value.sum(axis=self.params[1])
+                output = self.multiplier*self.sign*value + value_out
             elif self.xtype == 'L':
-                output = - self.multiplier*self.sign*np.log(value_in) + value_out
+                value = np.log(value_in)
+                if self.params is not None:
+                    value = value.sum(axis=self.params[1])
+                output = - self.multiplier*self.sign*value + value_out
             elif self.xtype == 'F':
                 output = self.multiplier*self.sign*np.log(1+np.exp(value_in)) + value_out
             elif self.xtype == 'P':
